@@ -56,6 +56,8 @@ SetStress(s) == /\ rawS' = s /\ UNCHANGED <<rawC, rawP, rot, rotP, eig, result>>
                 /\ dS' = <<s, <<>>>> /\ UNCHANGED <<shape, dC, dP>>
 SetShape(sh) == shape' = sh /\ UNCHANGED <<rawC, rawP, rot, rotP, eig, rawS, dC, dP, dS, result>>
 Update == UpdateFrom(rawC, rawP, rot, rotP, rawS, shape, dS) /\ UNCHANGED <<rawC, rawP, rot, rotP, eig, rawS, result>>
+(* a call on ANOTHER StrainEnergy object: objects share nothing, so nothing of this one changes *)
+OtherObject == UNCHANGED <<rawC, rawP, rot, rotP, eig, rawS, shape, dC, dP, dS, result>>
 (* compute(r): everything the returned energy depends on *)
 Compute == /\ result' = [set |-> TRUE, shape |-> shape, dC |-> dC, dP |-> dP, eig |-> eig, dS |-> dS]
            /\ UNCHANGED <<rawC, rawP, rot, rotP, eig, rawS, shape, dC, dP, dS>>
@@ -66,7 +68,7 @@ Next == /\ nops < MaxOps /\ nops' = nops + 1
            \/ \E e \in Eigs : SetEig(e)
            \/ \E s \in Stresses : SetStress(s)
            \/ \E sh \in Shapes : SetShape(sh)
-           \/ Update \/ Compute
+           \/ Update \/ Compute \/ OtherObject
 Spec == Init /\ [][Next]_vars
 
 (* ------------------------------- C16, order clause ------------------------------- *)
